@@ -1281,7 +1281,7 @@ func (sq *Queue) TryIncAllocatedResource(alloc *resources.Resource) error {
 	// check this queue: failure stops checks if the allocation is not part of a node addition
 	if !sq.allocatedResFits(alloc) {
 		return fmt.Errorf("allocation (%v) puts queue '%s' over maximum allocation (%v), current usage (%v)",
-			alloc, sq.QueuePath, sq.maxResource, sq.allocatedResource)
+			alloc, sq.QueuePath, sq.cloneMaxResource(), sq.GetAllocatedResource())
 	}
 	// check the parent: need to pass before updating
 	if sq.parent != nil {
@@ -1292,8 +1292,8 @@ func (sq *Queue) TryIncAllocatedResource(alloc *resources.Resource) error {
 				log.Log(log.SchedQueue).Warn("parent queue exceeds maximum resource",
 					zap.String("leafQueue", sq.QueuePath),
 					zap.Stringer("allocationRequest", alloc),
-					zap.Stringer("queueUsage", sq.allocatedResource),
-					zap.Stringer("maxResource", sq.maxResource),
+					zap.Stringer("queueUsage", sq.GetAllocatedResource()),
+					zap.Stringer("maxResource", sq.cloneMaxResource()),
 					zap.Error(err))
 			}
 			return err
